@@ -181,6 +181,9 @@ def discrete_oracle(line, impl, ref):
     """property oracle on the implementation's output; returns message or None"""
     t = line.split()
     cmd = t[0]
+    oob = [x for x in impl if x.startswith("OOB-")]
+    if oob:
+        return "%s accessed memory outside [first, last): %s (guard elements around the array)" % (cmd, " ".join(oob))
     if cmd in ("sort", "psort", "part"):
         off = 3 if cmd == "psort" else 2
         n = int(t[off])
@@ -250,11 +253,29 @@ def discrete_oracle(line, impl, ref):
 def run_discrete(ctx, algos_exe, model_exe):
     L, B = gen_discrete(ctx)
     inp = "\n".join(L) + "\n"
-    rc, out = ctx.run_harness(algos_exe, input=inp + "\n".join(B) + "\n", timeout=900)
-    ilines = out.splitlines()
-    if rc != 0 or len(ilines) != len(L) + len(B):
-        raise vlib.BuildError("algos harness failed rc=%d (%d lines for %d commands)" % (rc, len(ilines), len(L) + len(B)),
-                              out[-1500:])
+    # the harness flushes one line per command: if it dies (segfault / sanitizer abort) the
+    # command after the last complete line is the failing input; report it and go on
+    allc = L + B
+    ilines, start, crashes = [], 0, 0
+    env = {"ASAN_OPTIONS": "detect_leaks=0:exitcode=77", "UBSAN_OPTIONS": "print_stacktrace=0"}
+    while start < len(allc):
+        rc, out = ctx.run_harness(algos_exe, input="\n".join(allc[start:]) + "\n", timeout=900, env=env)
+        got = [l for l in out.splitlines() if "|" in l or l.startswith("unknown-command")]
+        if rc == 0 and len(got) == len(allc) - start:
+            ilines += got
+            break
+        good = got[:len(allc) - start - 1]
+        ilines += good
+        bad = start + len(good)
+        crashes += 1
+        report = [l for l in out.splitlines() if "ERROR" in l or "runtime error" in l or "SUMMARY" in l][:3]
+        ctx.violation("oracle", "harness died (rc=%d) inside '%s': %s" % (rc, allc[bad].split()[0], "; ".join(report)[:300] or "crash"),
+                      {"command": allc[bad][:4000], "harness_output_tail": out[-1200:]})
+        ilines.append("CRASH |")
+        start = bad + 1
+        if crashes >= 4:
+            ilines += ["SKIPPED |"] * (len(allc) - len(ilines))
+            break
     rc, mout = vlib.sh([model_exe], input=inp, timeout=1500)
     mlines = mout.splitlines()
     if rc != 0 or len(mlines) != len(L):
@@ -263,6 +284,8 @@ def run_discrete(ctx, algos_exe, model_exe):
     for i, line in enumerate(L + B):
         impl_s, _, ref_s = ilines[i].partition("|")
         impl, ref = impl_s.split(), ref_s.split()
+        if impl in (["CRASH"], ["SKIPPED"]):
+            continue
         cmd = line.split(None, 1)[0]
         if nviol.get(cmd, 0) >= 2:
             continue
@@ -571,7 +594,8 @@ def run(ctx):
         ctx.violation("model-broken", "the executable model no longer compiles", {"log": log[-2000:]}, no_input=True)
         return
     ctx.build_libs(["corecel"])
-    algos = ctx.compile_harness([os.path.join(HERE, "harness", "algos.cc")], "algos")
+    algos = ctx.compile_harness([os.path.join(HERE, "harness", "algos.cc")], "algos",
+                                extra=["-fsanitize=address,undefined", "-fno-sanitize-recover=undefined", "-fno-omit-frame-pointer"])
     grids = ctx.compile_harness([os.path.join(HERE, "harness", "grids.cc")], "grids", libs=["corecel"])
     model = ctx.ocaml_extract("C18/Extract.v", os.path.join(HERE, "harness", "driver.ml"), "c18model_exe", "c18model")
     nl, nb = run_discrete(ctx, algos, model)
